@@ -13,6 +13,7 @@ import (
 
 	"github.com/vulcand/oxy/v2/internal/holsterv4/clock"
 	"github.com/vulcand/oxy/v2/ratelimit"
+	"github.com/vulcand/oxy/v2/utils"
 	"github.com/vulcand/oxy/v2/verifharness/gen"
 	"github.com/vulcand/oxy/v2/verifharness/vstat"
 	"pgregory.net/rapid"
@@ -131,11 +132,29 @@ func TestC03_LimiterBound(t *testing.T) {
 		if rapid.Bool().Draw(t, "explicitCapacity") {
 			opts = append(opts, ratelimit.Capacity(capacity))
 		}
-		tl, err := ratelimit.New(next, gen.HeaderExtractor, rs, opts...)
+		// a third of the limiters identify the source by the stock client.ip variable: one client
+		// address (IPv4, IPv6, IPv6 with zone) is one source whatever connection (port) it uses
+		byIP := rapid.IntRange(0, 2).Draw(t, "byClientIP") == 0
+		var extractor utils.SourceExtractor = gen.HeaderExtractor
+		if byIP {
+			if extractor, err = utils.NewExtractor("client.ip"); err != nil {
+				t.Fatalf("NewExtractor: %v", err)
+			}
+		}
+		ips := []string{"10.1.2.3", "[2001:db8::7]", "[fe80::1%eth0]"}
+		if byIP && rapid.Bool().Draw(t, "shuffleIPs") {
+			ips[0], ips[2] = ips[2], ips[0]
+		}
+		tl, err := ratelimit.New(next, extractor, rs, opts...)
 		if err != nil {
 			t.Fatalf("New: %v", err)
 		}
 		segs := genHistory(t, rates, nsrc)
+		if byIP {
+			for i := range segs {
+				segs[i].amt = 1
+			}
+		}
 		admitted := make([][]adm, nsrc)
 		rejectedBetween := make([]bool, nsrc)
 		pendingRej := make([]bool, nsrc)
@@ -160,6 +179,9 @@ func TestC03_LimiterBound(t *testing.T) {
 				req := httptest.NewRequest("GET", "http://x/", nil)
 				req.Header.Set("X-Src", "s"+strconv.Itoa(sg.src))
 				req.Header.Set("X-Amt", strconv.FormatInt(sg.amt, 10))
+				if byIP {
+					req.RemoteAddr = ips[sg.src] + ":" + strconv.Itoa(rapid.IntRange(1024, 65535).Draw(t, "port"))
+				}
 				rec := httptest.NewRecorder()
 				before := served
 				tl.ServeHTTP(rec, req)
@@ -220,7 +242,10 @@ func TestC03_LimiterBound(t *testing.T) {
 		if len(rates) > 1 {
 			cl = append(cl, "multi-rate")
 		}
-		vstat.Case(fmt.Sprintf("%v|%d|%v|%+v", rates, capacity, phase, segs), nt, cl, map[string]any{"rates": fmt.Sprint(rates), "sources": nsrc, "capacity": capacity, "segments(src,k,gap,amt)": fmt.Sprintf("%+v", segs), "requests": total})
+		if byIP {
+			cl = append(cl, "source=client.ip")
+		}
+		vstat.Case(fmt.Sprintf("%v|%v|%d|%v|%+v", byIP, rates, capacity, phase, segs), nt, cl, map[string]any{"rates": fmt.Sprint(rates), "sources": nsrc, "capacity": capacity, "segments(src,k,gap,amt)": fmt.Sprintf("%+v", segs), "requests": total})
 	})
 }
 
